@@ -6,9 +6,9 @@ HERE = os.path.dirname(os.path.dirname(os.path.abspath(__file__)))          # /v
 REPO = os.environ.get('VERIF_REPO', '/repo')
 LEAN = os.path.join(HERE, 'lean')
 HARNESS = os.path.join(HERE, 'harness')
-CACHE_ROOT = os.path.join(HERE, '.cache')
+CACHE_ROOT = os.environ.get('VERIF_CACHE_ROOT') or os.path.join(HERE, '.cache')
 EVID = os.environ.get('VERIF_EVIDENCE_DIR') or os.path.join(HERE, 'evidence')      # tools/run_seeded.py redirects it: committed evidence comes from the unchanged tree only
-REPLAYS = os.path.join(HERE, 'replays')
+REPLAYS = os.environ.get('VERIF_REPLAY_DIR') or os.path.join(HERE, 'replays')
 JOBS = int(os.environ.get('VERIF_JOBS', '16'))
 ALLOWED_AXIOMS = {'propext', 'Classical.choice', 'Quot.sound'}
 FORBIDDEN_RE = r'sorry|admit|^axiom |native_decide|bv_decide|implemented_by|unsafe |maxHeartbeats 0'
